@@ -87,12 +87,11 @@ class StubDaemon:
 # -- reference model ---------------------------------------------------------------------------
 
 class ROut:
-    __slots__ = ('txhash', 'idx', 'script', 'value', 'height', 'txnum', 'spendable', 'hashX', 'spent_by')
+    __slots__ = ('txhash', 'idx', 'script', 'value', 'height', 'txnum', 'spendable', 'hashX')
 
     def __init__(self, txhash, idx, script, value, height, txnum, spendable, hashX):
         self.txhash, self.idx, self.script, self.value = txhash, idx, script, value
         self.height, self.txnum, self.spendable, self.hashX = height, txnum, spendable, hashX
-        self.spent_by = None
 
 
 class RTx:
@@ -197,13 +196,7 @@ class Sim:
         return SBytes(list(b))
 
     def utxos(self, chain=None):
-        out = []
-        for blk in (self.chain if chain is None else chain):
-            for tx in blk.txs:
-                for o in tx.outs:
-                    if o.spendable and o.spent_by is None:
-                        out.append(o)
-        return out
+        return live_outputs(self.chain if chain is None else chain)
 
     def gen_block(self, spec, tag, chain=None):
         '''spec: {'cb': 'AS', 'txs': [{'ins': n, 'outs': 'SB'}, ...]} -> RBlock appended to chain.
@@ -228,12 +221,13 @@ class Sim:
                 ins.append(TxInput(ZERO32 if self.native else self.wrap(ZERO32), MINUS_1, b'', 0))
             else:
                 for i in range(ts['ins']):
-                    cands = self.utxos(chain) + [o for rt in rtxs for o in rt.outs if o.spendable and o.spent_by is None]
+                    taken = {id(x) for rt in rtxs for x in rt.ins} | {id(x) for x in rins}
+                    cands = [o for o in self.utxos(chain) + [o for rt in rtxs for o in rt.outs if o.spendable]
+                             if id(o) not in taken]
                     if not cands:
                         continue
                     k = eng.choice(f'{name}_in{i}', len(cands))
                     o = cands[k]
-                    o.spent_by = name
                     rins.append(o)
                     ins.append(TxInput(o.txhash, o.idx, b'', 0))
             outs, routs = [], []
@@ -277,10 +271,7 @@ class Sim:
         return h
 
     def unspend(self, blk):
-        '''Reference: undo the spends made by the transactions of blk (when it is orphaned).'''
-        for tx in blk.txs:
-            for o in tx.ins:
-                o.spent_by = None
+        '''Kept for callers: the reference derives spentness from the chain it is given.'''
 
     # .. driving the real code ..
     def advance(self, blk):
@@ -295,6 +286,12 @@ class Sim:
 
 # -- observation through the code's own read paths, compared with the reference ------------------
 
+def live_outputs(chain):
+    '''Reference UTXO set of a chain: spendable outputs created on it and not consumed on it.'''
+    spent = {id(o) for b in chain for tx in b.txs for o in tx.ins}
+    return [o for b in chain for tx in b.txs for o in tx.outs if o.spendable and id(o) not in spent]
+
+
 def expected_history(chain, q):
     out = []
     for blk in chain:
@@ -307,13 +304,16 @@ def expected_history(chain, q):
 
 
 def check_index(sim, label, *, queries=None, check_history=True, check_utxos=True, check_fs=True,
-                check_state=True, check_limits=False):
-    '''Compare every observable of the real index with the reference chain sim.chain.'''
+                check_state=True, check_limits=False, upto=None):
+    '''Compare every observable of the real index with the reference chain sim.chain (or its
+    first upto+1 blocks).'''
     eng, db = sim.eng, sim.db
-    chain = sim.chain
+    chain = sim.chain if upto is None else sim.chain[:upto + 1]
+    top = len(chain) - 1
     sig = lambda s: {'signature': f'{label}:{s}'}    # noqa
     all_outs = [o for b in chain for tx in b.txs for o in tx.outs]
-    live = [o for o in all_outs if o.spendable and o.spent_by is None]
+    live = live_outputs(chain)
+    live_ids = {id(o) for o in live}
     n_tx = sum(len(b.txs) for b in chain)
     if check_state:
         st = db.state
@@ -369,7 +369,7 @@ def check_index(sim, label, *, queries=None, check_history=True, check_utxos=Tru
         got = run(db.lookup_utxos(prevouts))
         terms = []
         for o, g in zip(all_outs, got[:-1]):
-            if o.spendable and o.spent_by is None:
+            if id(o) in live_ids:
                 terms.append(g is not None and z3_and([deep_eq(g[0], o.hashX), deep_eq(g[1], o.value)]))
             else:
                 terms.append(g is None)
